@@ -249,4 +249,6 @@ NotG7 == ~(\E c \in Clients : rpc[c] = "sent" /\ abortC)
 NotG8 == ~(gen = 2 /\ \E s \in Stoppers : kpc[s] = "signalled")
 NotG9 == ~(ppc = "send" /\ abortC /\ cpc = "select")
 NotG10 == ~(\E c \in Clients : rpc[c] = "checked" /\ ppc = "send" /\ cpc = "select")   \* request and block both ready
+NotG11 == ~(act.a = "StartCall" /\ act.r = "refused-state" /\ st = "Stopping")          \* Start arrives while the source is stopping (flag already cleared by another Stop)
+NotG12 == ~(act.a = "StartCall" /\ act.r = "refused-state" /\ st = "Active")
 =============================================================================
